@@ -2868,6 +2868,184 @@ def _search_position(K, sizes):
     return None
 
 
+def _blend_of_data(rv, A, S):
+    """(text, smallest size, parity) when the term returned is positively read as a value that is NOT, for data in general position,
+    one of the entries of A: an averaging reduction over the whole data (the median of an even number of points is the mean of the two
+    central ones; a mean / weighted average of two or more distinct values lies strictly between them) or arithmetic on entries of the
+    data that does not reduce to one entry ((A[s[k]] + A[s[k+1]])/2, the interpolating median).  The value is not an entry for every
+    size >= `smallest size` of the given parity (None: both).  None when the term is not read as such a value."""
+    if not isinstance(rv, sp.Basic):
+        return None
+    h = _head(rv)
+    whole = lambda x: x == A or (_head(x) == "IDX" and x.args[0] == A and x.args[1] == S) or (_head(x) == "C_numpy.sort" and x.args and x.args[0] == A)
+    kws = {_head(a)[3:] for a in rv.args[1:] if _head(a).startswith("KW_")} if rv.args else set()
+    plain = [a for a in rv.args[1:] if not _head(a).startswith("KW_")] if rv.args else []
+    if isinstance(rv, sp.core.function.AppliedUndef) and rv.args and whole(rv.args[0]):
+        if h in ("MEDIAN", "C_numpy.nanmedian") and not plain and kws <= {"axis"}:
+            return "the median of the data, for an even number of points the mean of the two central values", 2, 0
+        if h in ("MEAN", "C_numpy.nanmean", "C_numpy.average") and len(plain) <= 1:
+            return "an average over the data", 2, None
+        if h in ("C_numpy.percentile", "C_numpy.nanpercentile", "C_numpy.quantile", "C_numpy.nanquantile") and len(plain) == 1 and kws <= {"axis"} \
+                and plain[0].is_number and plain[0] == (50 if "percentile" in h else sp.Rational(1, 2)):
+            # the default (linear) rule between the two neighbouring order statistics
+            return "the linearly interpolated middle quantile of the data, for an even number of points the mean of the two central values", 2, 0
+        return None
+    if not isinstance(rv, (sp.Add, sp.Mul, sp.Pow)):
+        return None
+    elems = {}
+
+    def strip(t):
+        if _head(t) == "IDX" and t.args[0] == A:
+            j = t.args[1]
+            if j.is_Integer or (_head(j) == "IDX" and j.args[0] == S and j.args[1].is_Integer):
+                return elems.setdefault(t, sp.Dummy("e%d" % len(elems)))
+            raise _NoRec("entry %s" % t)
+        if t.is_Number:
+            return t
+        if isinstance(t, (sp.Add, sp.Mul, sp.Pow)):
+            return t.func(*[strip(a) for a in t.args])
+        raise _NoRec("term %s" % t)
+    try:
+        r = sp.expand(strip(rv))
+    except _NoRec:
+        return None
+    if not elems or r in elems.values() or not r.free_symbols:
+        return None
+    top = max(int(e.args[1] if e.args[1].is_Integer else e.args[1].args[1]) for e in elems)
+    if min(int(e.args[1] if e.args[1].is_Integer else e.args[1].args[1]) for e in elems) < 0:
+        return None
+    return "arithmetic on %d entr%s of the data that is not one entry" % (len(elems), "y" if len(elems) == 1 else "ies"), max(top + 1, 2), None
+
+
+def _equal_weights_sizes(cons, A, W, least, parity):
+    """Feasibility of a path for the family of inputs `n >= 1 points in general position, every weight equal to one c > 0` (a part of
+    the domain the property quantifies over: equal positive weights of every size): the path constraints are evaluated abstractly over
+    that family -- W is the array of n entries c, any entry of it is c, its sum n*c, its min/max/mean/median c, a comparison with an array
+    is the mask whose every entry has the truth of the comparison of the entries, all()/any() of such a mask (n >= 1) is that truth,
+    the sizes of W and A are n -- which leaves relations p*n + q REL 0 with rational p, q once c > 0 is divided out; they are solved for
+    the integer n.  Returns a size n >= `least` of the given parity (0 / 1 / None = any) that satisfies all of them, False when there
+    is none, None when a constraint is not read (it mentions the data values, or something outside this vocabulary)."""
+    c = sp.Symbol("c_", positive=True)
+    n = sp.Symbol("n_", integer=True, positive=True)
+
+    def ev(t):
+        if t == W:
+            return ("v", c)
+        if not isinstance(t, sp.Basic):
+            return None
+        if t.is_Number:
+            return ("s", t)
+        h = _head(t)
+        if h == "SIZE":
+            if t.args[0] == A:
+                return ("s", n)
+            x = ev(t.args[0])
+            return ("s", n) if x is not None and x[0] == "v" else None
+        if h == "IDX":
+            b = ev(t.args[0])
+            if b is None or b[0] != "v":
+                return None
+            j = t.args[1]
+            if _head(j) == "ARGSORT" and j.args[0] in (A, W):
+                return b                    # every position once, in another order
+            if not isinstance(j, sp.Basic) or _is_mask(j) or _is_index_array(j) or _head(j) in ("SLICE", "TUPLE"):
+                return None
+            return ("s", b[1])              # one entry, whichever
+        if h in ("SUM", "MEAN", "MIN", "MAX", "MEDIAN", "STD", "VAR") and len(t.args) == 1:
+            b = ev(t.args[0])
+            if b is None or b[0] != "v":
+                return None
+            return ("s", n * b[1] if h == "SUM" else (sp.Integer(0) if h in ("STD", "VAR") else b[1]))
+        if h in RELNAMES:
+            a, b = ev(t.args[0]), ev(t.args[1])
+            if a is None or b is None or a[0] not in "sv" or b[0] not in "sv":
+                return None
+            return ("m" if "v" in (a[0], b[0]) else "r", h, sp.expand(a[1] - b[1]))
+        if h == "NOT":
+            x = ev(t.args[0])
+            return (x[0], NEG[x[1]], x[2]) if x is not None and x[0] in "rm" else None
+        if h in ("C_numpy.all", "C_numpy.any", "C_method.all", "C_method.any", "C_numpy.alltrue") and len(t.args) == 1:
+            x = ev(t.args[0])
+            return ("r", x[1], x[2]) if x is not None and x[0] == "m" else None
+        if h == "COUNT":
+            x = ev(t.args[0])
+            if x is None or x[0] != "m":
+                return None
+            lin = linear(x[2])
+            if lin is None or lin[0] != 0:
+                return None
+            return ("s", n if holds(x[1], lin[1]) else sp.Integer(0))
+        if isinstance(t, (sp.Add, sp.Mul, sp.Pow)):
+            parts = [ev(a) for a in t.args]
+            if any(p is None or p[0] not in "sv" for p in parts):
+                return None
+            return ("v" if any(p[0] == "v" for p in parts) else "s", t.func(*[p[1] for p in parts]))
+        return None
+
+    def linear(d):
+        """d (a difference of two values of the family) as p*n + q up to the positive factor c"""
+        d = sp.expand(d)
+        if d.has(c):
+            d = sp.expand(sp.cancel(d / c))
+        if d.has(c) or not d.is_polynomial(n):
+            return None
+        p, q = d.coeff(n, 1), d.coeff(n, 0)
+        if sp.expand(d - p * n - q) != 0 or not (p.is_Rational and q.is_Rational):
+            return None
+        return p, q
+
+    def holds(h, v):
+        return {"LT": v < 0, "LE": v <= 0, "GT": v > 0, "GE": v >= 0, "EQ": v == 0, "NE": v != 0}[h]
+
+    rels = []
+    flat, todo = [], list(cons)
+    while todo:
+        t, truth = todo.pop(0)
+        if _head(t) == "NOT":
+            todo.insert(0, (t.args[0], not truth))
+        elif (_head(t) == "AND" and truth) or (_head(t) == "OR" and not truth):
+            todo[0:0] = [(a, truth) for a in t.args]        # a conjunction that holds / a disjunction that fails: every member does
+        else:
+            flat.append((t, truth))
+    for t, truth in flat:
+        x = ev(t) if isinstance(t, sp.Basic) else None
+        if x is None or x[0] != "r":
+            return None
+        lin = linear(x[2])
+        if lin is None:
+            return None
+        rels.append((x[1] if truth else NEG[x[1]], lin[0], lin[1]))
+    lo, hi, excl = max(int(least), 1), None, set()
+    for h, p, q in rels:
+        if p == 0:
+            if not holds(h, q):
+                return False
+            continue
+        v = -q / p                              # p*n + q h 0  <=>  n h' v
+        if p < 0:
+            h = {"LT": "GT", "LE": "GE", "GT": "LT", "GE": "LE", "EQ": "EQ", "NE": "NE"}[h]
+        if h == "EQ":
+            if not v.is_Integer:
+                return False
+            lo, hi = max(lo, int(v)), int(v) if hi is None else min(hi, int(v))
+        elif h == "NE":
+            if v.is_Integer:
+                excl.add(int(v))
+        elif h in ("GT", "GE"):
+            lo = max(lo, int(sp.floor(v)) + 1 if h == "GT" else int(sp.ceiling(v)))
+        else:
+            b = int(sp.ceiling(v)) - 1 if h == "LT" else int(sp.floor(v))
+            hi = b if hi is None else min(hi, b)
+    k = lo
+    while hi is None or k <= hi:
+        if k not in excl and (parity is None or k % 2 == parity):
+            return k
+        k += 1
+        if k > lo + 2 * len(excl) + 4:
+            break
+    return False
+
+
 def wmedian(chk, repo):
     fi = repo.func(ST + "wmedian")
     chk.analysed_unit(fi.qualname)
@@ -2883,6 +3061,19 @@ def wmedian(chk, repo):
         outs = _PX(repo, fi, one_d=True, max_body=4).returns({pos[0]: A, pos[1]: W})
         for rv, st in outs:
             npaths += 1
+            # the value returned is one of the input values: an entry of the data, not a blend of several of them
+            if isinstance(rv, sp.Basic) and _head(rv) == "IDX" and rv.args[0] == A and isinstance(rv.args[1], sp.Basic) \
+                    and not _is_mask(rv.args[1]) and not _is_index_array(rv.args[1]) and _head(rv.args[1]) not in ("SLICE", "TUPLE"):
+                agg.put("wmedian::returns-an-input-value", True)
+            else:
+                blend = _blend_of_data(rv, A, S)
+                if blend is not None:
+                    size = _equal_weights_sizes(st.cons, A, W, blend[1], blend[2])
+                    agg.put("wmedian::returns-an-input-value", False if size else None, lambda: (
+                        "%s is returned (%s) on a path taken by %d points with equal weights%s: that is in general not one of the input values, "
+                        "let alone the smallest sorted one whose cumulative weight reaches half the total"
+                        % (str(rv)[:120], blend[0], size, " (and by every larger %ssize that passes the same tests)" % ("even " if blend[2] == 0 else "")) if size else
+                        "%s is returned (%s) on a path whose tests are not read for inputs with equal weights" % (str(rv)[:120], blend[0])))
             # the value returned: the data value at sorted position k
             k = None
             if isinstance(rv, sp.Basic) and _head(rv) == "IDX" and rv.args[0] == A and _head(rv.args[1]) == "IDX" and rv.args[1].args[0] == S and rv.args[1].args[1].is_Integer:
@@ -2953,7 +3144,9 @@ def wmedian(chk, repo):
              ("wmedian::scan", "advance through the sorted order while the remaining weight still exceeds half the total (strict >): stops at the first value whose cumulative weight reaches half "
                                "(closed form: the first position whose cumulative sorted weight is >= half the total)"),
              ("wmedian::seed", "sorted position 0 is returned when its weight alone reaches half the total"),
-             ("wmedian::returns-value-at-position", "the value at the stopping position (in sorted order) is returned")]
+             ("wmedian::returns-value-at-position", "the value at the stopping position (in sorted order) is returned"),
+             ("wmedian::returns-an-input-value", "the value returned is one entry of the data on every path inputs of every size can take (not the plain median / an average "
+                                                 "/ a blend of neighbouring sorted values, which differ from every entry for data in general position)")]
     for key, text in texts:
         ok, why, n = agg.get(key)
         if norec:
